@@ -139,3 +139,16 @@ Proof. exact tie_serialize. Qed.
 Theorem C17_source_deserialize :
   gen_deserialize = ("deserialize_tuple", "N :: USIZE", ["_t : PhantomData"; "_n : PhantomData"])%string.
 Proof. exact tie_deserialize. Qed.
+
+(* ---- T2: the bounds of the trait impls this property's operations come from, as they stand in the source now
+        (coq/gen/GenSigs.v gen_impl_bounds): code that is generic over the lengths / element type and states
+        exactly these bounds can call them ---- *)
+From Coq Require Import String.
+From GA Require Import SigDefs.
+From GAGen Require Import GenSigs.
+Local Open Scope string_scope.
+
+Theorem C17_source_impl_bounds :
+  bounds_of "Serialize for GenericArray<T,N>" = Some ["N:ArrayLength"; "T:Serialize"] /\
+  bounds_of "Deserialize<> for GenericArray<T,N>" = Some ["N:ArrayLength"; "T:Deserialize<>"].
+Proof. repeat split. Qed.
